@@ -68,6 +68,18 @@ def check(run, case):
     items, bo, wo = case['items'], case['byteorder'], case['wordorder']
     vals = [(k, P.value_of(k, raw)) for k, raw in items]
     b = BinaryPayloadBuilder(byteorder=ORD[bo], wordorder=ORD[wo])
+    if case.get('reuse'):
+        # a builder that has been used before: other values of the same kinds were added, the payload was taken, reset() called
+        for k, v in reversed(vals):
+            try:
+                getattr(b, ADD[k])(v)
+            except Exception:  # noqa
+                break
+        try:
+            b.to_string(), b.build(), b.to_registers()
+        except Exception:  # noqa
+            pass
+        b.reset()
     ref = b''
     for k, v in vals:
         try:
@@ -146,6 +158,8 @@ def run(run):
         for bo in ('big', 'little'):
             for wo in ('big', 'little'):
                 case = {'items': items, 'byteorder': bo, 'wordorder': wo}
+                if i % 5 == 3 and len(items) > 1:
+                    case['reuse'] = True
                 res = check(run, case)
                 for k, _ in items:
                     run.count('kind:%s:%s/%s' % (k, bo, wo))
